@@ -279,10 +279,18 @@ coap_cache_get_by_pdu_lkd(coap_session_t *session,
   return cache_entry;
 }
 
-void
+COAP_API void
 coap_delete_cache_entry(coap_context_t *ctx, coap_cache_entry_t *cache_entry) {
+  coap_lock_lock(ctx, return);
+  coap_delete_cache_entry_lkd(ctx, cache_entry);
+  coap_lock_unlock(ctx);
+}
+
+void
+coap_delete_cache_entry_lkd(coap_context_t *ctx, coap_cache_entry_t *cache_entry) {
 
   assert(cache_entry);
+  coap_lock_check_locked(ctx);
 
   if (cache_entry) {
     HASH_DELETE(hh, ctx->cache, cache_entry);
@@ -324,7 +332,7 @@ coap_expire_cache_entries(coap_context_t *ctx) {
   HASH_ITER(hh, ctx->cache, cp, ctmp) {
     if (cp->idle_timeout > 0) {
       if (cp->expire_ticks <= now) {
-        coap_delete_cache_entry(ctx, cp);
+        coap_delete_cache_entry_lkd(ctx, cp);
       }
     }
   }
